@@ -109,7 +109,13 @@ fn get_delta_header_size(
         }
         let cmd = delta[*index];
         *index += 1;
-        size |= ((cmd & !0x80) as usize) << i;
+        // A size header longer than the word size cannot describe a buffer
+        // that exists; refuse it rather than overflowing the shift.
+        let bits = (cmd & !0x80) as usize;
+        if i >= usize::BITS as usize || (bits << i) >> i != bits {
+            return Err("delta size header too large");
+        }
+        size |= bits << i;
         i += 7;
         if cmd & 0x80 == 0 {
             return Ok(size);
